@@ -6,7 +6,7 @@ ASSUME = [
     'macro schedules (TestVerifC02Macro): the same operations with the usual combinations as single steps (A = apply next chunk, A+P = apply then snapshot+persist, A+F = apply then snapshot whose persist fails, P, F, R = restore newest snapshot on the live FSM + tail, X = restart), all enabled schedules of length 5 (6) on the logs all-old and gaps (thorough: all logs)',
     'two-node tier (TestVerifC02Cluster): leader and follower with their own directories and FSMs (package globals switched per node), one committed log; the follower may lag, install the snapshot the LEADER persisted (FSM.Restore of a foreign snapshot) and continue with the tail, snapshot and restart itself; schedules of length 5 (7); each node vs its own twin, and both nodes must serve equal output for inputs both retain; rolling-upgrade variant (logs all-old and old-new, thorough: all): the leader runs with the protobuf encoding, the follower with the legacy JSON encoding, all schedules of length 6 (8) in which the follower installs the leader\'s snapshot and performs at least two more operations',
     'real FSM.Apply/Snapshot/Restore, robustSnapshot.Persist, LevelDB irclog, output stream and raft FileSnapshotStore; the raft driver (which index a snapshot gets, which entries are replayed after a restore/restart) is a 40-line model: restore the newest snapshot, then apply every entry above its index',
-    'logs: 11 (thorough 13) logs of 2-5 chunks with index gaps (raft-internal entries) and age patterns all-old / old-new / old-new-old / all-new / exactly one too-new last entry / a marked message of death as the last message of its session / a ban on a session host (stored as two patterns) / a PING from a stale unregistered session (which closes it); the compaction time is chosen per age class (inclusive), "nothing old", and one time that puts the newest chunk between 10 min and the configured 30 min expiration',
+    'logs: 12 (thorough 14) logs of 2-5 chunks with index gaps (raft-internal entries) and age patterns all-old / old-new / old-new-old / all-new / exactly one too-new last entry / a marked message of death as the last message of its session / a ban on a session host (stored as two patterns) / a PING from a stale unregistered session (which closes it) / a services link with a pseudo-client that acts after it was folded; the compaction time is chosen per age class (inclusive), "nothing old", and one time that puts the newest chunk between 10 min and the configured 30 min expiration',
     'the compaction horizon of the oracle is the configured session expiration (from the twin) + 10 s',
     'operations: apply next chunk, Snapshot(compaction time), Persist ok, Persist failing at the 0th / 2nd sink write, restore newest snapshot on the live FSM + tail, restart (fresh FSM and globals on the same directory, restore newest snapshot + tail); a kill is modelled between operations',
     'twin: glue mirror on a plain IRCServer that never snapshots (mirror validated against statemachine.go in C01)',
